@@ -721,6 +721,9 @@ func (ctx Ctx) callExpr(s *ast.CallExpr) coq.Expr {
 		return ctx.capExpr(s)
 	}
 	if ctx.isBuiltin(s.Fun, "append") {
+		if len(s.Args) != 2 {
+			ctx.unsupported(s, "append must have exactly one element or slice to append")
+		}
 		elemTy := sliceElem(ctx.typeOf(s.Args[0]).Underlying())
 		if s.Ellipsis == token.NoPos {
 			return coq.NewCallExpr(coq.GallinaIdent("SliceAppend"),
